@@ -78,6 +78,12 @@ def main(n, seed):
                     problem = f"diff(new, old) is not the mirror image of diff(old, new) (shallow={sh}): only forward {sorted((fwd - bwd).elements())[:3]}, only backward {sorted((bwd - fwd).elements())[:3]}"
             # an index derived from the other one (DataIndex(old) copies the mapping, not the entries: unchanged entries -- directory
             # entries included -- are the very same objects on both sides) and then edited below such a shared directory entry
+            if hl and not wr and problem is None:
+                # shallow only makes HASHED directories opaque: with no hashed directory anywhere it must change nothing
+                a_ = Counter((c.typ, c.key) for c in diff(build(fo, True)[0], build(fn, True)[0], with_unchanged=wu, hash_only=ho, meta_only=mo, shallow=True, **kw))
+                b_ = Counter((c.typ, c.key) for c in diff(build(fo, True)[0], build(fn, True)[0], with_unchanged=wu, hash_only=ho, meta_only=mo, shallow=False, **kw))
+                if a_ != b_:
+                    problem = f"shallow=True changes the result although no directory is hashed: only shallow {sorted((a_ - b_).elements())[:3]}, only full {sorted((b_ - a_).elements())[:3]}"
             if not wr and roots is None and problem is None and hl:  # hash-less directory entries, as build() leaves them
                 shared = build(fo, True)[0]
                 eo2 = dict(shared.iteritems())
@@ -137,7 +143,7 @@ def main(n, seed):
             fails.append({"old": {"/".join(k): v for k, v in fo.items()}, "new": {"/".join(k): v for k, v in fn.items()},
                           "with_unchanged": wu, "hash_only": ho, "meta_only": mo, "with_renames": wr, "hashless": hl, "roots": roots, "problem": problem})
     return {"evaluations": n, "distinct_nontrivial": len(distinct), "failures": fails[:3], "n_failures": len(fails),
-            "bound": "keys over {a,b,c}, depth <= 3, <= 6 files per side, explicit hashed directory entries, metadata-only changes, entries without hash, hash_only / meta_only / renames / with_unchanged / roots; mirror-image check also with shallow=True and directories hashed on one side only; a derived index that shares entry objects with the old one"}
+            "bound": "keys over {a,b,c}, depth <= 3, <= 6 files per side, explicit hashed directory entries, metadata-only changes, entries without hash, hash_only / meta_only / renames / with_unchanged / roots; mirror-image check also with shallow=True and directories hashed on one side only; a derived index that shares entry objects with the old one; shallow = full when no directory is hashed"}
 
 
 if __name__ == "__main__":
